@@ -233,7 +233,7 @@ def _enum_grid(tier):
     cases = []
     for nu in range(1, 7):
         for nv in range(1, 7):
-            for mode in ("scalar", "vector", "default", "vector-after-read", "bumps-after-read", "regenerate-default", "regenerate-vector"):
+            for mode in ("scalar", "vector", "default", "vector-after-read", "bumps-after-read", "regenerate-default", "regenerate-vector", "vector-spread"):
                 cases.append({"nu": nu, "nv": nv, "mode": mode, "sx": 2.0 + nu, "sy": 3.0 + nv})
     return cases
 
@@ -271,6 +271,10 @@ def check_grid(case, ctx):
         w = [2.5] * count
     elif mode == "vector":
         w = [0.5 + 0.25 * ((7 * i) % 11) for i in range(count)]
+        g.weight = list(w)
+    elif mode == "vector-spread":
+        # weights of widely differing magnitude (every third one times 2^-30): each point still gets its own weight
+        w = [(0.5 + 0.25 * ((7 * i) % 11)) * (2.0 ** -30 if i % 3 == 0 else 1.0) for i in range(count)]
         g.weight = list(w)
     elif mode == "vector-after-read":
         _ = g.grid
